@@ -101,7 +101,20 @@ def gen_spec(rnd, o, names_after, ncomp, flags):
     sp['ch'] = t
     if t is not None and o.get('p_multichannel', 0) and rnd.random() < o['p_multichannel']:
         sp['ch2'] = rnd.choice([c for c in ['a', 'b', '*'] if c != t] or ['a'])
+    _feedback_channels(rnd, o, sp, ncomp)
     return sp
+
+
+def _feedback_channels(rnd, o, sp, ncomp):
+    """success_channels / complete_channels of an event that asks for that feedback: one channel, or two"""
+    if not o.get('p_feedback_ch', 0):
+        return
+    for bit, key in ((1, 'success_ch'), (4, 'complete_ch')):
+        if sp['flags'] & bit and rnd.random() < o['p_feedback_ch']:
+            ch = [rnd.choice(['a', 'b', '*', '#%d' % rnd.randint(1, ncomp)])]
+            if rnd.random() < 0.3:
+                ch.append(rnd.choice([c for c in ['a', 'b'] if c not in ch]))
+            sp[key] = ch
 
 
 def gen_script(rnd, o, nm, names, ncomp, handlers, dyn, sops, flags):
@@ -192,6 +205,7 @@ def gen_history(rnd, o, prog):
             sp['ch'] = t
             if t is not None and o.get('p_multichannel', 0) and rnd.random() < o['p_multichannel']:
                 sp['ch2'] = rnd.choice([x for x in ['a', 'b', '*'] if x != t] or ['a'])
+            _feedback_channels(rnd, o, sp, ncomp)
             hist.append(['fire', c, sp])
             nfired += 1
         elif op == 'flush':
